@@ -48,6 +48,10 @@ func simProp(id string, quick, thorough int, level, rule string) *propCfg {
 var ioReal = []string{"every line of hprose-golang's io package (encoder, decoder, pools, formatter), uninstrumented code paths included"}
 
 var props = map[string]*propCfg{
+	"C04": {ID: "C04", Quick: 2000, Thorough: 200000, PerProc: 20, Level: "fault_enumeration", RunTimeout: 120,
+		Rule: "one run = one valid stream (a generated value encoded by the real encoder, or an RPC request / response produced by the real client / service codec; at most 400 bytes) under: every truncation; at every offset substitution by 10 tape-chosen bytes of a 48-byte dictionary (all Hprose tags, digits, marks, 0x00/0x80/0xff), deletion and insertion of 4 of them; every count, length, reference index and integer replaced by -1, 0, n-1, n+1, 99, 70000, 2^31-1, 2^31, 10^11 and a 22-digit number; 40 tape-drawn compositions of 2-4 such faults; each faulty stream is decoded from memory (and every third through the fragmenting simulated reader) into interface{}, its own type and four tape-chosen of 28 destination types, or handed to a real Service (Service.Handle) as a request, or to the real client codec as a response; evaluations counts decodes, distinct_nontrivial counts distinct faulty streams",
+		Assumptions: []string{"allocation is measured with runtime/metrics in a single-goroutine worker (GOMAXPROCS=1); bound: 1 MiB + 1024 x input length", "a 4 GiB address-space limit turns absurd allocations into an attributable process death", "arbitrary byte strings are covered only as far as composed faults of valid streams reach"},
+		Real: append(append([]string{}, ioReal...), "rpc/core client and service codecs, Service.Handle with method lookup and argument decoding"), Stub: []string{"the bytes in flight (fault injector), the io.Reader (simReader)"}},
 	"C05": {ID: "C05", Quick: 8000, Thorough: 400000, PerProc: 100, Level: "fault_enumeration", RunTimeout: 300,
 		Rule: "one run = one valid stream (1-4 values from the type-directed generator encoded by the real encoder in simple or reference mode; one run in six truncated, one in six followed by trailing bytes) decoded through the simulated io.Reader under: every two-way split position, every fixed chunk size 1-64 and 255/256/257, 299/300/301, 511/512/513, each with EOF reported with or after the last chunk, five buffer sizes and pooled decoders used before on a failing input, plus 24 tape-drawn chunk sequences with zero-byte reads of which 8 with an injected I/O error at a tape-chosen offset; evaluations counts (stream, fragmentation) pairs, distinct_nontrivial counts the pairs of this run set in which the reader was read more than twice (streams differ between runs by construction: distinct run seeds)",
 		Assumptions: []string{"the in-memory decoder is the reference: a defect shared by both paths is invisible to this differential oracle", "values are compared with reflect.DeepEqual (NaN-aware)"},
